@@ -210,6 +210,12 @@ func (f *FnEnc) instr(fr *Frame, st *State, R string, in ssa.Instruction) {
 		f.c.notes["select: results havocked, blocking not modelled"] = true
 		v := f.freshVal("sel", in.Type())
 		f.c.assume(R, f.wf(st, v))
+		// the chosen case index is one of the cases (or -1 for a select with a default)
+		lo := int64(0)
+		if !in.Blocking {
+			lo = -1
+		}
+		f.c.assume(R, and("(bvsle "+bv64(lo)+" "+v.L[0]+")", "(bvslt "+v.L[0]+" "+bv64(int64(len(in.States)))+")"))
 		f.setVal(fr, in, v)
 	case *ssa.Send:
 		f.c.notes["channel send: no effect modelled"] = true
